@@ -116,6 +116,7 @@ type moduleChecker struct {
 	numAttrs    int
 	sections    int
 	gcs         int
+	comdats     int
 	vstNames    map[int]string
 }
 
@@ -124,7 +125,7 @@ func newModuleChecker(c *checker, mod *bsBlock, sum *BitcodeSummary) *moduleChec
 }
 
 func (m *moduleChecker) find(rule, f string, a ...any) { m.rep.add(rule, fmt.Sprintf(f, a...)) }
-func (m *moduleChecker) fire(rule string)               { m.rep.fire(rule) }
+func (m *moduleChecker) fire(rule string)              { m.rep.fire(rule) }
 
 func (m *moduleChecker) ty(id int) *typ {
 	if id < 0 || id >= len(m.types) {
@@ -186,10 +187,13 @@ func (m *moduleChecker) ptrTo(elem int, as uint64) int {
 // sameType compares type ids structurally for the synthetic/declared split:
 // LLVM types are uniqued, so two ids denote the same type iff they are
 // structurally equal (named structs: identical id).
-func (m *moduleChecker) sameType(a, b int) bool {
-	if a == b {
+func (m *moduleChecker) sameType(a, b int) bool { return m.sameTypeD(a, b, 0) }
+
+func (m *moduleChecker) sameTypeD(a, b, depth int) bool {
+	if a == b || depth > 32 {
 		return true
 	}
+	depth++
 	x, y := m.ty(a), m.ty(b)
 	if x == nil || y == nil || x.kind != y.kind {
 		return false
@@ -198,15 +202,15 @@ func (m *moduleChecker) sameType(a, b int) bool {
 	case tInt:
 		return x.width == y.width
 	case tPointer:
-		return x.addrspace == y.addrspace && m.sameType(x.elem, y.elem)
+		return x.addrspace == y.addrspace && m.sameTypeD(x.elem, y.elem, depth)
 	case tArray, tVector:
-		return x.n == y.n && m.sameType(x.elem, y.elem)
+		return x.n == y.n && m.sameTypeD(x.elem, y.elem, depth)
 	case tFunction:
-		if x.vararg != y.vararg || len(x.fields) != len(y.fields) || !m.sameType(x.elem, y.elem) {
+		if x.vararg != y.vararg || len(x.fields) != len(y.fields) || !m.sameTypeD(x.elem, y.elem, depth) {
 			return false
 		}
 		for i := range x.fields {
-			if !m.sameType(x.fields[i], y.fields[i]) {
+			if !m.sameTypeD(x.fields[i], y.fields[i], depth) {
 				return false
 			}
 		}
@@ -219,7 +223,7 @@ func (m *moduleChecker) sameType(a, b int) bool {
 			return false
 		}
 		for i := range x.fields {
-			if !m.sameType(x.fields[i], y.fields[i]) {
+			if !m.sameTypeD(x.fields[i], y.fields[i], depth) {
 				return false
 			}
 		}
@@ -343,6 +347,8 @@ func (m *moduleChecker) run() {
 				m.sections++
 			case 11: // GCNAME
 				m.gcs++
+			case 12: // COMDAT
+				m.comdats++
 			}
 		}
 	}
@@ -791,6 +797,9 @@ func (m *moduleChecker) globalVar(r *bsRecord) {
 	if r.Ops[4] > 30 {
 		m.find("module.global", "GLOBALVAR value #%d: alignment field %d exceeds the maximum exponent", len(m.values), r.Ops[4])
 	}
+	if len(r.Ops) > 11 && r.Ops[11] > uint64(m.comdats) {
+		m.find("module.global", "GLOBALVAR value #%d: comdat index %d but only %d COMDAT records", len(m.values), r.Ops[11], m.comdats)
+	}
 	if r.Ops[5] != 0 && r.Ops[5]-1 >= uint64(m.sections) {
 		m.find("module.global", "GLOBALVAR value #%d: section index %d but only %d SECTIONNAME records", len(m.values), r.Ops[5], m.sections)
 	}
@@ -869,6 +878,12 @@ func (m *moduleChecker) functionDecl(r *bsRecord) {
 	}
 	if r.Ops[6] != 0 && r.Ops[6]-1 >= uint64(m.sections) {
 		m.find("module.function-decl", "FUNCTION value #%d: section index %d but only %d SECTIONNAME records", fd.valueID, r.Ops[6], m.sections)
+	}
+	if r.Ops[3] == 2 {
+		m.find("module.function-decl", "FUNCTION value #%d has appending linkage (only global variables may)", fd.valueID)
+	}
+	if len(r.Ops) > 12 && r.Ops[12] > uint64(m.comdats) {
+		m.find("module.function-decl", "FUNCTION value #%d: comdat index %d but only %d COMDAT records", fd.valueID, r.Ops[12], m.comdats)
 	}
 	if len(r.Ops) > 8 && r.Ops[8] != 0 && r.Ops[8]-1 >= uint64(m.gcs) {
 		m.find("module.function-decl", "FUNCTION value #%d: gc index %d but only %d GCNAME records", fd.valueID, r.Ops[8], m.gcs)
